@@ -426,7 +426,7 @@ Lemma outbound_gone add known a t :
   known_after add known = false -> connect_tail add known (Enrol a t) = [EReturnNotFound].
 Proof. destruct add, known; cbn; intros H; try discriminate H; reflexivity. Qed.
 
-(* the wrapper before commit db8f6a6 reported a peer that is not in the registry *)
+(* the wrapper before commit ad08637 reported a peer that is not in the registry *)
 Lemma connect_tail_v1_refuted :
   exists add known a t, In (EReturnPeer a t) (connect_tail_v1 add known (Enrol a t)) /\
                         known_after add known = false.
